@@ -37,3 +37,20 @@ UNITS.append(dict(name='mpf_integer_p', props=['C13', 'C04', 'C15'], source='mpf
 UNITS.append(dict(name='mpf_get_ui', props=['C13', 'C11', 'C04', 'C15'], source='mpf/get_ui.c', contracts=CT, enforce=['__gmpf_get_ui'],
     harness='void h_mpf_get_ui (void) {\n' + mpf_obj('F') + '  __gmpf_get_ui (&F);\n}',
     selftest=[('__gmpf_get_ui', r'if \(size >= exp\)', 'if (size > exp)')]))
+
+def strip_loop(ptr, siz, base, n0, fin):
+    return dict(scalars=[siz], havoc_targets=[ptr], havoc='{ long V_d = nondet_long (); __CPROVER_assume (0 <= V_d && V_d < %s); %s = %s + V_d; %s = %s - V_d; }' % (n0, ptr, base, siz, n0),
+                inv='(%(p)s >= %(b)s && __CPROVER_same_object (%(p)s, %(b)s) && %(s)s == %(n)s - (%(p)s - %(b)s) && 1 <= %(s)s && %(s)s <= %(n)s && %(b)s[%(n)s - 1] != 0 && (gh < (%(p)s - %(b)s) ==> %(b)s[gh] == 0))'
+                    % dict(p=ptr, s=siz, b=base, n=n0), dec=siz, after=fin)
+_cmpu = (dict(name='mpf_cmp', props=['C11', 'C13', 'C04', 'C15'], source='mpf/cmp.c', contracts=['mpn.h', 'mpz.h', 'c11.h', 'mpf.h'], enforce=['__gmpf_cmp'], replace=['__gmpn_cmp'],
+    functions={'__gmpf_cmp': dict(
+        inserts=[(r'up = u->_mp_d;', r'\g<0> long V_un = usize;'), (r'vp = v->_mp_d;', r'\g<0> long V_vn = vsize;')],
+        loops={0: strip_loop('up', 'usize', 'u->_mp_d', 'V_un', 'g_zu = up - u->_mp_d;'),
+               1: strip_loop('vp', 'vsize', 'v->_mp_d', 'V_vn', 'g_zv = vp - v->_mp_d;')})},
+    harness='void h_mpf_cmp (void) {\n' + mpf_obj('U') + mpf_obj('V') + '  mpf_srcptr u = &U, v = &V; if (nondet_bool ()) v = u;\n  gj = nondet_long (); gh = nondet_long ();\n  __gmpf_cmp (u, v);\n}',
+    timeout=900,
+    selftest=[('__gmpf_cmp', r'return -usign;\s*\}\s*else\s*\{', 'return usign; } else {'), ('__gmpf_cmp', r'if \(uexp > vexp\)', 'if (uexp >= vexp)'),
+              ('__gmpf_cmp', r'__gmpn_cmp \(up \+ usize - vsize, vp, vsize\)', '__gmpn_cmp (up, vp, vsize)')]))
+
+UNITS.extend(split_alias(_cmpu, '  mpf_srcptr u = &U, v = &V; if (nondet_bool ()) v = u;\n',
+                         [('', '  mpf_srcptr u = &U, v = &V;\n'), ('uv', '  mpf_srcptr u = &U, v = u;\n')]))
